@@ -536,8 +536,11 @@ func genEntry(r *vh.RNG, B int, now time.Time, wild bool) entry {
 		e.kind, e.tcat = dNonObject, tNone
 	default:
 		if wild {
-			e.doc = []string{`{`, `{"a":}`, `abc`, `{"a":1}}`, `{"a":"b" "c":1}`, `{"a":1,}`}[r.Intn(6)]
-			e.kind, e.tcat = dInvalid, tNone
+			pool := []string{`{`, `{"a":}`, `abc`, `{"a":1}}`, `{"a":"b" "c":1}`, `{"a":1,}`, `[1,`, `[1, 2`, `["a"] trail`, `"abc`, `tru`, `nul`, `falsey`,
+				`12x`, `-x`, `[]]`, `"a" "b"`, `[1,]`, `{"a":tru}`}
+			e.doc = pool[r.Intn(len(pool))]
+			// the verdict on a malformed line is the decoder's verdict on the whole line
+			e.kind, e.tcat = []docKind{dObject, dNonObject, dInvalid}[bulk.VerifJSONKind([]byte(e.doc))], tUnknown
 		} else {
 			e.doc, e.tcat = `{"k":"v"}`, tNone
 		}
@@ -1330,6 +1333,9 @@ func main() {
 	chProc := vh.NewChannel("bulk.proc", "POST /_bulk through the real BulkHandler and bulk.Ingestor into a capturing StorageClient vs SV.Bulk.processDocuments: status class, created items, number of store calls, decompressed docs payload; JSON verdicts of insane-json passed to the model as oracle; non-trivial = the reader yields at least one document")
 	chIngest := vh.NewChannel("bulk.ingest", "Ingestor.ProcessDocuments fed by the real esBulkDocReader.ReadDoc with a chosen request time vs SV.Bulk.processDocuments with metaFor: items, payload, and per stored document MID and Size of its meta (document times around the request time, beyond the drifts and beyond int64); non-trivial = at least one document stored")
 	chResp := vh.NewChannel("bulk.resp", "writeBulkResponse(took, total) vs SV.Bulk.bulkResponse: the whole body, for every total in 0..300, around 384/512/1024 (2048/4096 in the thorough tier) and random totals up to 1500; non-trivial = at least two items")
+	chDefaults := vh.NewChannel("bulk.defaults", "proxyapi.IngestorConfig.setDefaults vs SV.Bulk.setDefaults (defaults = extracted consts): search/export timeout and max inflight in {0, set}, both drifts in {0, 1ms, 1h, 24h, 2^62-1}; non-trivial = a drift is 0")
+	orcConfig := vh.NewOracle("bulk.config", "the real proxyapi.NewIngestor (config -> setDefaults -> bulk.NewIngestor -> gRPC bulk client) in front of a recording gRPC store, configured drifts in {0, 1ms, 1h, 24h, 2^62-1}^2: the effective drifts equal the configured ones, and a document 1h/30min/3h/48h/10s old or 1min/10s/3h ahead gets its own time iff it lies within the CONFIGURED drifts (cases too close to a limit to judge are skipped); non-trivial = a drift is 0")
+	orcLines := vh.NewOracle("bulk.lines", "processor.Process on a single line vs the JSON decoder's verdict on the whole line (object -> stored, other JSON -> skipped, invalid -> bulk rejected), lines = every start class ([ string number literal { other, with leading blanks) x truncated/garbled/valid tails; each line also between two valid documents through the real handler (bulk.proc + bulk.property); non-trivial = invalid line starting like a non-object value")
 	chIndex := vh.NewChannel("bulk.index", "all metas (MID, Size, tokens; parent and nested) stored by the real Ingestor for one document under a mapping with keyword/text/path/exists, multi-type, object, tags and nested fields vs SV.Bulk.metasFor = time rule + SV.BulkIndex.indexDoc (per field: C11's SV.Tok.indexField) on the tree insane-json presents; random case sensitivity, partial indexing and token limits; non-trivial = the parent meta has more than the _all_ token")
 	orcIndex := vh.NewOracle("bulk.items", "one stored document = one created item, one meta of the document's size first, then only size-0 metas with the same ID (nested elements); non-trivial = at least one nested meta")
 	chCodec := vh.NewChannel("bulk.codec", "captured docs payload: packer.BytesUnpacker vs SV.Bulk.decodeDocs, and SV.Bulk.encodeDocs of the decoded documents vs the payload; plus truncated payloads; captured metas payload: MetaData.UnmarshalBinary per record vs SV.Bulk.decMeta (ids, size, token bytes) and re-encoding equals the payload; non-trivial = at least two documents")
@@ -1371,6 +1377,14 @@ func main() {
 					runIndexCases(chIndex, orcIndex, rep, vh.NewRNG(o.Seed), []string{string(b)})
 				}
 			}
+			if d, f, off, lay, ok := parseCfgCase(l); ok {
+				cfgCase(d, f, off, lay, orcConfig, rep)
+			}
+			if f := strings.Fields(l); len(f) == 2 && f[0] == "line" {
+				if b, err := hex.DecodeString(f[1]); err == nil {
+					lineCase(string(b), chProc, orcLines, orcProp, rep)
+				}
+			}
 			if c, ok := parseE2ECase(l); ok {
 				runE2E([]e2eCase{c}, orcE2E, rep)
 			}
@@ -1380,6 +1394,8 @@ func main() {
 		rep.AddChannel(chMid, o.Driver)
 		rep.AddChannel(chIndex, o.Driver)
 		rep.AddOracle(orcIndex)
+		rep.AddOracle(orcConfig)
+		rep.AddOracle(orcLines)
 		rep.AddOracle(orcProp)
 		rep.AddOracle(orcTime)
 		rep.AddOracle(orcE2E)
@@ -1623,6 +1639,15 @@ func main() {
 		}
 	}
 
+	if want("bulk.defaults") {
+		runDefaultsChannel(chDefaults, orcConfig, rep)
+		runConfigOracle(orcConfig, rep, rng.Fork(), o)
+	}
+	if want("bulk.proc") {
+		for _, l := range genLines(rng.Fork(), o.Pick(100, 3000)) {
+			lineCase(l, chProc, orcLines, orcProp, rep)
+		}
+	}
 	if want("bulk.index") {
 		runIndexChannel(chIndex, orcIndex, rep, rng.Fork(), o)
 	}
@@ -1754,7 +1779,7 @@ func main() {
 		}
 	}
 
-	for _, ch := range []*vh.Channel{chRL, chFrame, chProc, chResp, chIngest, chIndex, chCodec, chDelayed, chMid, chExtract} {
+	for _, ch := range []*vh.Channel{chRL, chFrame, chProc, chDefaults, chResp, chIngest, chIndex, chCodec, chDelayed, chMid, chExtract} {
 		if want(ch.Name) {
 			rep.AddChannel(ch, o.Driver)
 		}
@@ -1767,5 +1792,7 @@ func main() {
 	rep.AddOracle(orcTime)
 	rep.AddOracle(orcE2E)
 	rep.AddOracle(orcIndex)
+	rep.AddOracle(orcConfig)
+	rep.AddOracle(orcLines)
 	rep.Write(o.Out)
 }
